@@ -56,6 +56,7 @@ type callRec struct {
 	TaskAlive bool
 	VT        time.Duration // virtual time of the call
 	Class     string        // KILL: class of the task
+	EnvID     string        // KILL: environment the task was launched for
 }
 
 // sim is the per-execution state shared by all lives.
@@ -76,6 +77,8 @@ type sim struct {
 	unackedOrder []string
 	redeliver    []*scheduler.Event
 	teardown     map[string]bool // environments whose teardown the operator requested
+	envLife      map[string]int  // environment -> life of the core in which its creation succeeded
+	envFailed    map[string]bool // environments a request of which failed (the API then moves them to ERROR / tears them down)
 	// fault injection
 	mode      string // "crash" | "reconnect" | ""
 	faultLife int
@@ -88,7 +91,7 @@ type sim struct {
 
 func newSim(m *coresim.Master) *sim {
 	return &sim{m: m, perLife: map[int]int{}, cores: map[int]*core.VerifCore{}, dead: map[int]bool{}, taskFID: map[string]string{},
-		fidOf: map[int]string{}, told: map[int]string{}, recon: map[int]map[string]string{}, unacked: map[string]*scheduler.Event{}, teardown: map[string]bool{}}
+		fidOf: map[int]string{}, told: map[int]string{}, recon: map[int]map[string]string{}, unacked: map[string]*scheduler.Event{}, teardown: map[string]bool{}, envLife: map[string]int{}, envFailed: map[string]bool{}}
 }
 
 type link struct {
@@ -298,7 +301,7 @@ func (l *link) Call(ctx context.Context, c *scheduler.Call) (mesos.Response, err
 		rec.Teardown = s.teardown[rec.Owner]
 		rec.VT = vrt.VNow()
 		if t := s.m.Tasks[id]; t != nil {
-			rec.MesosSt, rec.TaskAlive, rec.Class = t.MesosState.String(), t.Alive, t.Class
+			rec.MesosSt, rec.TaskAlive, rec.Class, rec.EnvID = t.MesosState.String(), t.Alive, t.Class, t.EnvID
 		}
 
 		if s.taskFID[id] != rec.FID {
@@ -419,6 +422,8 @@ var (
 		"one":  {"one", []string{"c18-one"}, []string{"create:0", "start:0", "stop:0", "destroy:0"}},
 		"two":  {"two", []string{"c18-two"}, []string{"create:0", "start:0", "stop:0", "destroy:0"}},
 		"envs": {"envs", []string{"c18-one", "c18-b"}, []string{"create:0", "start:0", "create:1", "destroy:1", "stop:0", "destroy:0"}},
+		// a cleanup request that names the tasks of a live environment sits in the history
+		"cleanup": {"cleanup", []string{"c18-two"}, []string{"create:0", "cleanupids:0", "start:0", "stop:0", "destroy:0"}},
 		// the second task is accepted by the agent but never reports TASK_RUNNING: the master holds it in TASK_STAGING
 		"staging": {"staging", []string{"c18-stg"}, []string{"create:0"}},
 	}
@@ -447,6 +452,14 @@ func (r *runner) run() {
 		switch op {
 		case "create":
 			r.ids[k], state, err = r.w.Create(r.sh.wfs[k], nil)
+			if err == nil {
+				r.s.envLife[r.ids[k]] = r.w.Life
+			}
+		case "cleanupids":
+			// a CleanupTasks request naming the tasks of a live environment: legal, and must change nothing
+			ts, _ := r.w.EnvTasksAndDetectors(r.ids[k])
+			err = r.w.Cleanup(ts)
+			state = fmt.Sprintf("named=%d", len(ts))
 		case "start":
 			state, err = r.w.Control(r.ids[k], pb.ControlEnvironmentRequest_START_ACTIVITY)
 		case "stop":
@@ -460,6 +473,9 @@ func (r *runner) run() {
 			state = "gone"
 		}
 		r.results = append(r.results, fmt.Sprintf("%s=%s/%v", st, state, err != nil))
+		if err != nil && k < len(r.ids) && r.ids[k] != "" {
+			r.s.envFailed[r.ids[k]] = true
+		}
 		if err != nil {
 			// clean up what exists, then stop
 			for j, id := range r.ids {
@@ -672,6 +688,14 @@ func restartScenario(name string, sh shape, mesosStates, newEnv bool, q, t vrt.B
 // environment whose teardown nobody asked for, after that life had been sent a reconciliation update for the task.
 func ownedKills(s *sim, what, ctx string) (out []vrt.Violation) {
 	for _, c := range s.calls {
+		if c.Type == "KILL" && c.Owner == "" && c.Recon && c.EnvID != "" && s.envLife[c.EnvID] == c.Life && !s.teardown[c.EnvID] && !s.envFailed[c.EnvID] {
+			// the roster of this life no longer knows the task, yet it was launched for an environment that this life
+			// created successfully, that nobody asked to tear down and that has not failed on its own
+			out = append(out, vrt.Violation{Clause: "reconciliation-kills-task-of-live-environment:forgotten-by-the-roster:" + what,
+				Detail: fmt.Sprintf("life %d call #%d KILL %s: launched for environment %s (created in this life, no teardown requested), not in the roster any more; the master had answered the implicit reconciliation with %s for it\n%s",
+					c.Life, c.N, c.Task, c.EnvID, s.recon[c.Life][c.Task], ctx)})
+			return
+		}
 		if c.Type == "KILL" && c.Owner != "" && c.Recon && !c.Teardown {
 			out = append(out, vrt.Violation{Clause: "reconciliation-kills-task-owned-by-live-environment:" + what,
 				Detail: fmt.Sprintf("life %d call #%d KILL %s: the task was locked by environment %s (no teardown requested), the master had answered the implicit reconciliation with %s for it\n%s",
@@ -686,15 +710,15 @@ func ownedKills(s *sim, what, ctx string) (out []vrt.Violation) {
 // reconnection scenarios (same life)
 
 type reconObs struct {
-	faultAt    string
-	aliveAt    []aliveTask
-	results    []string
-	reached    bool
-	quiescent  bool
+	faultAt                 string
+	aliveAt                 []aliveTask
+	results                 []string
+	reached                 bool
+	quiescent               bool
 	stateBefore, stateAfter map[string]string
-	aliveAfter []aliveTask
-	subs       int
-	recons     int
+	aliveAfter              []aliveTask
+	subs                    int
+	recons                  int
 }
 
 func reconnectScenario(name string, sh shape, q, t vrt.Bounds) *vrt.Scenario {
@@ -916,6 +940,8 @@ func main() {
 		reconnectScenario("reconnect-one", shapes["one"], q0, t2),
 		reconnectScenario("reconnect-two", shapes["two"], q0, t1),
 		reconnectScenario("reconnect-envs", shapes["envs"], q0, t1),
+		reconnectScenario("reconnect-cleanup", shapes["cleanup"], q0, t1),
+		restartScenario("restart-cleanup", shapes["cleanup"], false, false, q0, t1),
 		overlapScenario("reconnect-overlap", q0, t1),
 	})
 }
